@@ -1,12 +1,15 @@
 """C16 — cancelling a source stops its handler and runs the cancel handler once.
    Model/SrcLife.v (hand: invoke2 phases, wakeup, cancel / cancel_and_wait, global interleaving model, trace monitor);
    Gen_srclife (generated: the rmw loops on dq_atomic_flags of source.c, DSF_* constants, atomic sites)."""
+import time
+
 import common
 import conc
 import driver
+from props import c16r
 
 PROPERTIES_FILE = "Properties/Properties_C16.v"
-COQ_DEPS = ["Proofs/SrcLife_phase_proofs.vo", "Proofs/SrcLife_proofs.vo"]
+COQ_DEPS = ["Proofs/SrcLife_phase_proofs.vo", "Proofs/SrcLife_proofs.vo", "Proofs/SrcLifeR_proofs.vo"]
 GEN_MODULES = ["Gen_srclife"]
 LEVEL = "proof"
 COQ_TIMEOUT = 1500
@@ -19,6 +22,10 @@ TRUSTED = [
     "cancel_and_wait / events / hang-up / release / activation / invoke phases); what they do not cover: that the lane layer "
     "performs the invokes _dispatch_source_wakeup asks for (C01) and that the kernel delivers events (liveness)",
     "finalize_unregistration's flag update and its futex wake are one model step; cancel_and_wait's try-lock is an oracle input",
+    "global replay (Model/SrcLifeR.v, C16_replay_reach / C16_inv_b_sound): every recorded round is executed on SrcLife.gstep itself; "
+    "the order of the observations is the recorder's stamps corrected by the exact old->new chain of dq_atomic_flags (a wrong "
+    "order can only make a replay fail); reads of ds_handler / ds_pending_data / du_state are not observations (writes are); the "
+    "values the model does not compute (orc) are chosen by the scheduler from a short list per program point",
     "drain lock of the source abstracted as one owner at a time; serial exclusion of the target queue assumed (C02)",
     "handlers are installed before activation and not replaced afterwards",
 ]
@@ -172,15 +179,33 @@ def analyse(text, label, seed, permille):
 def correspond(ctx):
     plan = [(0, 60), (150, 120), (400, 60)] if ctx.tier == "quick" else [(0, 240), (150, 480), (400, 240), (80, 240)]
     fails, mism, alltr, total = [], [], [], {}
+    jobs, jobinfo = [], []
     for i, (permille, rounds) in enumerate(plan):
         seed = ctx.seed * 1000 + i
         text, err = run_harness(seed, rounds, permille)
         if err:
             fails.append({"key": "seed%d:crash" % seed, "what": "stress run died (seed %d, perturbation %d): %s" % (seed, permille, err),
                           "seed": seed, "permille": permille, "code": -1})
-        f, tr, st, _ = analyse(text, "p%d" % permille, seed, permille)
+        f, tr, st, rds = analyse(text, "p%d" % permille, seed, permille)
         fails += f
         alltr += [(sv, t, rd, thr, seed) for (sv, t, rd, thr) in tr]
+        # the rounds as inputs of the global replay
+        other, per = conc.parse_dump(text)
+        mgr = [int(l.split()[1]) for l in other if l.startswith("MGR")]
+        by = {}
+        for thr, evs in per.items():
+            for e in evs:
+                by.setdefault(e.obj // 8, {}).setdefault(thr, []).append(e)
+        for rd in sorted(rds):
+            j = c16r.build(rds[rd], by.get(rd, {}), mgr[0] if mgr else -1) if not err else None
+            if j is None:
+                total["rounds_without_replay_input"] = total.get("rounds_without_replay_input", 0) + 1
+                if not err:
+                    mism.append({"what": "the recorded writes of dq_atomic_flags of a round do not form one old->new chain (or the round has no marks)",
+                                 "detail": {"seed": seed, "round": rd}})
+                continue
+            jobs.append(j)
+            jobinfo.append((seed, permille, rds[rd]))
         for k, v in st.items():
             total[k] = total.get(k, 0) + v
     res = conc.coq_conform("c16_conf", ["Word", "Conc", "Gen_srclife", "SrcLife"], "conform", [(sv, t) for (sv, t, _, _, _) in alltr])
@@ -190,6 +215,23 @@ def correspond(ctx):
                          "(SrcLife.mon_step): the library did something the model does not allow",
                          "detail": {"seed": seed, "round": rd, "thread": thr, "rejected_at": i, "pending_wake": 1 - idle,
                                     "trace": [e.brief() for e in t][max(0, i - 8):i + 3]}})
+    # global replay: every round as a run of SrcLife.gstep
+    t0 = time.time()
+    rres = c16r.coq_replay("c16_replay", jobs)
+    rp = {"rounds_replayed_as_SrcLife_runs": 0, "model_acts_replayed": 0, "observations_replayed": 0, "rounds_with_late_start_replayed": 0}
+    for j, (seed, permille, rdd), res in zip(jobs, jobinfo, rres):
+        ok, det = c16r.judge(j, rdd, res)
+        if ok:
+            rp["rounds_replayed_as_SrcLife_runs"] += 1
+            rp["model_acts_replayed"] += det["acts"]
+            rp["observations_replayed"] += len(j["order"])
+            rp["rounds_with_late_start_replayed"] += 1 if det["late_starts"] else 0
+        else:
+            det.update({"seed": seed, "permille": permille, "round": j["id"], "type": TYPES[rdd["type"]], "cancel": SCENS[rdd["scen"]]})
+            mism.append({"what": "a recorded round is not reproduced as a run of the global model SrcLife.gstep (Model/SrcLifeR.v): " + det.get("what", ""),
+                         "detail": det})
+    rp["replay_seconds"] = round(time.time() - t0, 1)
+    total.update(rp)
     # one failure per distinct key
     seen, uniq = set(), []
     for f in fails:
@@ -208,7 +250,9 @@ def correspond(ctx):
                     "handler end / nothing after it), white-box state at the cancellation point (CANCELED|DELETED, du_state 0, "
                     "descriptor absent from the epoll set via /proc/self/fdinfo, descriptor closed and its number reused by a new "
                     "source that must fire), one final state; every per-thread trace of dq_atomic_flags events + callout marks is "
-                    "replayed through SrcLife.mon_step inside Coq; distinct = distinct trace shapes",
+                    "replayed through SrcLife.mon_step inside Coq; every round (all threads, all five tracked words) is replayed as a run of "
+                    "the global model by SrcLifeR.sched inside Coq and the boolean invariant inv_b is evaluated on its end state; "
+                    "distinct = distinct trace shapes",
             "samples": samples, "distribution": total, "traces_validated_against_impl": len(alltr),
             "mismatches": mism[:20], "failures": uniq[:20]}
 
